@@ -81,7 +81,7 @@ class Walker(object):
         k = r.choices(self.kinds, self.weights)[0]
         if k == "pub":
             return ("pub", a, r.choice([0, 1, 1, 2, 2]), r.random() < 0.2, r.choice([0, 1, 5, 200]),
-                    r.choice(["plain", "plain", "uni"]), r.choice(["bytearray", "str"]))
+                    r.choice(["plain", "plain", "uni"]), r.choice(["bytearray", "str", "ustr"]))
         if k == "sub":
             return ("sub", a, r.choice(["str", "tuple", "list"]), r.choice([1, 2, 3]), r.choice([0, 1, 2]))
         if k == "unsub":
@@ -108,7 +108,7 @@ class Walker(object):
                     r.choice(["new", "new", "reuse", "repeat"]), r.choice([0, 2, 300]),
                     r.choice(["plain", "uni"]))
         if k == "inrel":
-            return ("inrel", a, r.choice(["known", "known", "repeat", "unknown"]))
+            return ("inrel", a, r.choice(["known", "known", "repeat", "unknown"]), r.random() < 0.3)
         if k == "tick":
             return ("tick",)
         if k == "adv":
@@ -135,7 +135,7 @@ class Walker(object):
 
     def walk(self, w, n):
         if self.rng.random() < 0.15:
-            w.step(("placeid", self.rng.choice([200, 255, 32766, 65500])))
+            w.step(("placeid", self.rng.choice([200, 255, 32766, 65500, 65532, 65533, 65534])))
         for _ in range(n):
             s = self.next_step(w)
             if s is not None:
@@ -169,4 +169,5 @@ def random_cfg(rng, profile=None, model=None):
                re_echo=rng.random() < 0.1,
                re_connect_on_disc=rng.random() < 0.1,
                re_disc_on=rng.choice([None] * 10 + ["ack", "suback", "onpublish", "connmade", "connected"]),
-               late=rng.choice([0.0] * 6 + [0.0078125, 0.25]))
+               late=rng.choice([0.0] * 6 + [0.0078125, 0.25]),
+               re_on_refuse=rng.choice([None] * 6 + ["publish", "connect"]))
